@@ -65,37 +65,46 @@ structure TagSpec where
 
 def yesNo : List Txt := [g!"YES", g!"NO"]
 
+/-- EXT-X-START (RFC 8216 §4.3.5.2) -/
+def startSpecs : List AttrSpec :=
+  [ { name := g!"TIME-OFFSET", classes := [.signedFloat], required := true },
+    { name := g!"PRECISE", classes := [.enum yesNo] } ]
+
+/-- EXT-X-MEDIA (§4.3.4.1) -/
+def mediaSpecs : List AttrSpec :=
+  [ { name := g!"TYPE", classes := [.enum [g!"AUDIO", g!"VIDEO", g!"SUBTITLES", g!"CLOSED-CAPTIONS"]], required := true },
+    { name := g!"URI", classes := [.quoted] },
+    { name := g!"GROUP-ID", classes := [.quoted], required := true },
+    { name := g!"LANGUAGE", classes := [.quoted] },
+    { name := g!"ASSOC-LANGUAGE", classes := [.quoted] },
+    { name := g!"NAME", classes := [.quoted], required := true },
+    { name := g!"DEFAULT", classes := [.enum yesNo] },
+    { name := g!"AUTOSELECT", classes := [.enum yesNo] },
+    { name := g!"FORCED", classes := [.enum yesNo] },
+    { name := g!"INSTREAM-ID", classes := [.quoted] },
+    { name := g!"CHARACTERISTICS", classes := [.quoted] },
+    { name := g!"CHANNELS", classes := [.quoted] } ]
+
+/-- EXT-X-STREAM-INF (§4.3.4.2) -/
+def streamInfSpecs : List AttrSpec :=
+  [ { name := g!"BANDWIDTH", classes := [.decInt], required := true },
+    { name := g!"AVERAGE-BANDWIDTH", classes := [.decInt] },
+    { name := g!"CODECS", classes := [.quoted] },
+    { name := g!"RESOLUTION", classes := [.resolution] },
+    { name := g!"FRAME-RATE", classes := [.float] },
+    { name := g!"HDCP-LEVEL", classes := [.enum [g!"TYPE-0", g!"NONE"]] },
+    { name := g!"AUDIO", classes := [.quoted] },
+    { name := g!"VIDEO", classes := [.quoted] },
+    { name := g!"SUBTITLES", classes := [.quoted] },
+    { name := g!"CLOSED-CAPTIONS", classes := [.quoted, .enum [g!"NONE"]] } ]
+
 /-- RFC 8216 §4.3.1.2, §4.3.5.1, §4.3.5.2, §4.3.4.1, §4.3.4.2 -/
 def baseTags : List TagSpec :=
   [ { name := g!"#EXT-X-VERSION", form := .int, kind := .any, once := true },
     { name := g!"#EXT-X-INDEPENDENT-SEGMENTS", form := .none, kind := .any, once := true },
-    { name := g!"#EXT-X-START", kind := .any, once := true, form := .attrs
-        [ { name := g!"TIME-OFFSET", classes := [.signedFloat], required := true },
-          { name := g!"PRECISE", classes := [.enum yesNo] } ] },
-    { name := g!"#EXT-X-MEDIA", kind := .multivariant, form := .attrs
-        [ { name := g!"TYPE", classes := [.enum [g!"AUDIO", g!"VIDEO", g!"SUBTITLES", g!"CLOSED-CAPTIONS"]], required := true },
-          { name := g!"URI", classes := [.quoted] },
-          { name := g!"GROUP-ID", classes := [.quoted], required := true },
-          { name := g!"LANGUAGE", classes := [.quoted] },
-          { name := g!"ASSOC-LANGUAGE", classes := [.quoted] },
-          { name := g!"NAME", classes := [.quoted], required := true },
-          { name := g!"DEFAULT", classes := [.enum yesNo] },
-          { name := g!"AUTOSELECT", classes := [.enum yesNo] },
-          { name := g!"FORCED", classes := [.enum yesNo] },
-          { name := g!"INSTREAM-ID", classes := [.quoted] },
-          { name := g!"CHARACTERISTICS", classes := [.quoted] },
-          { name := g!"CHANNELS", classes := [.quoted] } ] },
-    { name := g!"#EXT-X-STREAM-INF", kind := .multivariant, uriFollows := true, form := .attrs
-        [ { name := g!"BANDWIDTH", classes := [.decInt], required := true },
-          { name := g!"AVERAGE-BANDWIDTH", classes := [.decInt] },
-          { name := g!"CODECS", classes := [.quoted] },
-          { name := g!"RESOLUTION", classes := [.resolution] },
-          { name := g!"FRAME-RATE", classes := [.float] },
-          { name := g!"HDCP-LEVEL", classes := [.enum [g!"TYPE-0", g!"NONE"]] },
-          { name := g!"AUDIO", classes := [.quoted] },
-          { name := g!"VIDEO", classes := [.quoted] },
-          { name := g!"SUBTITLES", classes := [.quoted] },
-          { name := g!"CLOSED-CAPTIONS", classes := [.quoted, .enum [g!"NONE"]] } ] } ]
+    { name := g!"#EXT-X-START", kind := .any, once := true, form := .attrs startSpecs },
+    { name := g!"#EXT-X-MEDIA", kind := .multivariant, form := .attrs mediaSpecs },
+    { name := g!"#EXT-X-STREAM-INF", kind := .multivariant, uriFollows := true, form := .attrs streamInfSpecs } ]
 
 /-! ## Lexical classes -/
 
@@ -103,17 +112,21 @@ def isDig (c : Char) : Bool := '0' ≤ c ∧ c ≤ '9'
 
 def isHexDig (c : Char) : Bool := isDig c || ('a' ≤ c ∧ c ≤ 'f') || ('A' ≤ c ∧ c ≤ 'F')
 
+/-- the longest prefix whose characters satisfy `p`, and the rest -/
+def spanP (p : Char → Bool) : Txt → Txt × Txt
+  | [] => ([], [])
+  | c :: cs => if p c then ((c :: (spanP p cs).1), (spanP p cs).2) else ([], c :: cs)
+
 /-- `1*max DIGIT` -/
-def digits (s : Txt) (max : Nat) : Bool := s ≠ [] ∧ s.length ≤ max ∧ s.all isDig
+def digits (s : Txt) (max : Nat) : Bool := !s.isEmpty && decide (s.length ≤ max) && s.all isDig
 
 /-- `1*DIGIT` -/
-def digits1 (s : Txt) : Bool := s ≠ [] ∧ s.all isDig
+def digits1 (s : Txt) : Bool := !s.isEmpty && s.all isDig
 
 /-- `1*DIGIT [ "." 1*DIGIT ]` -/
 def isFloat (s : Txt) : Bool :=
-  let (a, r) := s.span isDig
-  a ≠ [] &&
-  match r with
+  !(spanP isDig s).1.isEmpty &&
+  match (spanP isDig s).2 with
   | [] => true
   | d :: b => d = '.' && digits1 b
 
@@ -124,13 +137,12 @@ def isSignedFloat (s : Txt) : Bool :=
 
 def isHexSeq (s : Txt) : Bool :=
   match s with
-  | z :: x :: r => z = '0' && (x = 'x' || x = 'X') && r ≠ [] && r.all isHexDig
+  | z :: x :: r => z = '0' && (x = 'x' || x = 'X') && !r.isEmpty && r.all isHexDig
   | _ => false
 
 def isResolution (s : Txt) : Bool :=
-  let (a, r) := s.span isDig
-  digits a 20 &&
-  match r with
+  digits (spanP isDig s).1 20 &&
+  match (spanP isDig s).2 with
   | x :: b => x = 'x' && digits b 20
   | [] => false
 
@@ -158,30 +170,32 @@ def badUnquoted (c : Char) : Bool := c = '"' || c = ' ' || c = '\t' || c = '\n' 
 
 def isLineBreak (c : Char) : Bool := c = '\n' || c = '\r'
 
+/-- quoted-string after the opening quote -/
+def lexQuoted (name r2 : Txt) : Option (Pair × Txt) :=
+  match (spanP (fun c => c ≠ '"') r2).2 with
+  | [] => none                                             -- unterminated
+  | _ :: r4 =>
+    if (spanP (fun c => c ≠ '"') r2).1.any isLineBreak then none
+    else some ({ name := name, value := (spanP (fun c => c ≠ '"') r2).1, quoted := true }, r4)
+
+/-- unquoted value: up to the next comma -/
+def lexUnquoted (name s : Txt) : Option (Pair × Txt) :=
+  if (spanP (fun c => c ≠ ',') s).1.isEmpty || (spanP (fun c => c ≠ ',') s).1.any badUnquoted then none
+  else some ({ name := name, value := (spanP (fun c => c ≠ ',') s).1, quoted := false }, (spanP (fun c => c ≠ ',') s).2)
+
+/-- the value after `=` -/
+def lexValue (name r1 : Txt) : Option (Pair × Txt) :=
+  match r1 with
+  | [] => none
+  | q :: r2 => if q = '"' then lexQuoted name r2 else lexUnquoted name (q :: r2)
+
 /-- one `NAME=value`; returns the pair and what follows the value -/
 def lexOne (s : Txt) : Option (Pair × Txt) :=
-  let (name, r) := s.span isNameChar
-  if name = [] then none
+  if (spanP isNameChar s).1.isEmpty then none
   else
-    match r with
+    match (spanP isNameChar s).2 with
     | [] => none
-    | e :: r1 =>
-      if e ≠ '=' then none
-      else
-        match r1 with
-        | [] => none
-        | q :: r2 =>
-          if q = '"' then
-            let (v, r3) := r2.span (fun c => c ≠ '"')
-            if v.any isLineBreak then none
-            else
-              match r3 with
-              | [] => none                               -- unterminated
-              | _ :: r4 => some ({ name := name, value := v, quoted := true }, r4)
-          else
-            let (v, r3) := (q :: r2).span (fun c => c ≠ ',')
-            if v = [] || v.any badUnquoted then none
-            else some ({ name := name, value := v, quoted := false }, r3)
+    | e :: r1 => if e = '=' then lexValue (spanP isNameChar s).1 r1 else none
 
 /-- `attribute *( "," attribute )` — `fuel` bounds the number of attributes -/
 def lexAttrs : Nat → Txt → Option (List Pair)
@@ -234,10 +248,9 @@ def hasPre (p l : Txt) : Bool := p.isPrefixOf l
 
 /-- name and optional value of a tag line -/
 def cutTag (line : Txt) : Txt × Option Txt :=
-  let (n, r) := line.span (fun c => c ≠ ':')
-  match r with
-  | [] => (n, none)
-  | _ :: v => (n, some v)
+  match (spanP (fun c => c ≠ ':') line).2 with
+  | [] => ((spanP (fun c => c ≠ ':') line).1, none)
+  | _ :: v => ((spanP (fun c => c ≠ ':') line).1, some v)
 
 def kindOK (t : PKind) (k : PKind) : Bool :=
   match t with
@@ -252,6 +265,17 @@ def formOK (f : Form) (value : Option Txt) : Bool :=
   | .custom chk, some v => chk v
   | _, _ => false
 
+/-- a tag line, split into name and optional value -/
+def stepTag (tags : List TagSpec) (kind : PKind) (st : St) (name : Txt) (value : Option Txt) : Option St :=
+  match tags.find? (fun t => t.name = name) with
+  | none => none                                          -- unknown tag (also a second #EXTM3U)
+  | some t =>
+    if !kindOK t.kind kind then none
+    else if t.once && st.seen.contains name then none
+    else if !formOK t.form value then none
+    else some { seen := if t.once then name :: st.seen else st.seen,
+                pending := st.pending || t.uriFollows }
+
 def stepLine (tags : List TagSpec) (kind : PKind) (st : St) (line : Txt) : Option St :=
   match line with
   | [] => some st                                           -- blank
@@ -260,16 +284,7 @@ def stepLine (tags : List TagSpec) (kind : PKind) (st : St) (line : Txt) : Optio
       (if st.pending then some { st with pending := false } else none)
     else if !hasPre g!"#EXT" line then some st              -- comment
     else if st.pending && kind = .multivariant then none    -- EXT-X-STREAM-INF must be followed by its URI
-    else
-      let (name, value) := cutTag line
-      match tags.find? (fun t => t.name = name) with
-      | none => none                                        -- unknown tag (also a second #EXTM3U)
-      | some t =>
-        if !kindOK t.kind kind then none
-        else if t.once && st.seen.contains name then none
-        else if !formOK t.form value then none
-        else some { seen := if t.once then name :: st.seen else st.seen,
-                    pending := st.pending || t.uriFollows }
+    else stepTag tags kind st (cutTag line).1 (cutTag line).2
 
 def run (tags : List TagSpec) (kind : PKind) : St → List Txt → Option St
   | st, [] => some st
